@@ -161,6 +161,16 @@ func (e *Engine) inline(fr *Frame, st *State, callee *ssa.Function, args []Val, 
 				vals = append(vals, sub.rets[0].vals[k])
 				continue
 			}
+			if e.iteMerge {
+				var gs []Term
+				var vs []Val
+				for _, r := range sub.rets {
+					gs = append(gs, r.st.guard)
+					vs = append(vs, r.vals[k])
+				}
+				vals = append(vals, e.iteVals(gs, vs))
+				continue
+			}
 			nv := e.freshLike(sub.rets[0].vals[k], "ret."+callee.Name())
 			for _, r := range sub.rets {
 				e.assume(Implies(r.st.guard, e.valEq(nv, r.vals[k])))
